@@ -254,13 +254,20 @@ func H_Nodes() {
 		n = util.NewExtensionNode([]byte("ab"), k)
 	}
 	enc0 := n.Encode()
+	payload := func(v util.MPTSerializable) {
+		if sv, ok := v.(*util.SecureSerializableValue); ok && len(sv.Buffer) > 0 {
+			sv.Buffer[0] ^= 0xff // mutate the value payload in place
+		}
+	}
 	mutate := func(x util.Node) {
 		switch xi := x.(type) {
 		case *util.LeafNode:
 			xi.Path[0] = 'f'
+			payload(xi.GetValue())
 			xi.SetOrigin(99)
 		case *util.FullNode:
 			xi.Children[10][0] = 0xff
+			payload(xi.GetValue())
 			xi.SetOrigin(99)
 		case *util.ExtensionNode:
 			xi.Path[0] = 'f'
